@@ -117,7 +117,6 @@ theorem MsInv.removeIfDown {s : State} (id : Id) (hi : MsInv s) : MsInv { s with
 
 /-- the leaf obligations of `MsInv` -/
 theorem MsInv.leaves (E : Env) : Leaves E MsInv where
-  init := by intro id pol cfg; simp [MsInv, State.init, countActive]
   membersApply := Pres.membersApply
   membersApplyExistingIf := Pres.membersApplyExistingIf
   membersNext := Pres.membersNext
@@ -127,10 +126,11 @@ theorem MsInv.leaves (E : Env) : Leaves E MsInv where
     unfold Foca.addUpdate
     exact Pres.modS_of (fun s hs => MsInv.of_same rfl rfl hs)
   modCtl := fun f h => Pres.modS_of (fun s hs => MsInv.of_same (h s).1 (h s).2.1 hs)
-  modCustom := fun f h => Pres.modS_of (fun s hs => MsInv.of_same (h s).1 (h s).2.1 hs)
+  setHst := fun _ => Pres.modS_of (fun s hs => MsInv.of_same rfl rfl hs)
+  addCustom := fun _ _ _ => Pres.modS_of (fun s hs => MsInv.of_same rfl rfl hs)
 
 /-- In every reachable state — any history of public calls, any inputs, any RNG — there is one record per
     address and `num_members()` is exactly the number of active records. -/
-theorem MsInv.reachable (E : Env) {s : State} (h : Reachable E s) : MsInv s := (MsInv.leaves E).reachable h
+theorem MsInv.reachable (E : Env) {s : State} (h : Reachable E s) : MsInv s := (MsInv.leaves E).reachable (by intro id pol cfg; simp [MsInv, State.init, countActive]) h
 
 end Foca
